@@ -90,6 +90,21 @@ def cases_for(tier, seed):
             body += [{"node": x, "tick": x, "line": "<declutter %s>" % x, "op": {"op": "tick"}} for x in nodes]
             body.append(cluster.client_op(rnd.choice(nodes), nodes, rnd.choice(pops)))
         cases.append(build_case("t%d" % i, nodes, body, seed + i, "random", strategy=rnd.choice(["none", "none", "newer"])))
+    # a second database, snapshotted by name from an administrator session that has the first one selected; declutter
+    # on every node; then its key is removed and written again (judged against the tombstone everywhere)
+    for i, nodes in enumerate((["n1", "n2"], ["n1", "n2", "n3"], ["n1", "n2"], ["n1", "n2", "n3"])):
+        names = ["e"] if i < 2 else ["e", "d"]
+        body = [cluster.client_op(nodes[0], nodes, {"op": "create-db", "d": "e", "tok": "tok2", "strategy": "none", "explicit_strategy": True}, c="a"),
+                {"node": nodes[0], "c": "ce", "line": "use-db e tok2"},
+                cluster.client_op(nodes[0], nodes, {"op": "set", "k": "ek", "v": "one"}, c="ce", db="e"),
+                cluster.client_op(nodes[0], nodes, DATA_OPS[0]),
+                cluster.client_op(nodes[0], nodes, {"op": "snapshot", "reclaim": False, "names": names}, c="a")]
+        body += [{"node": x, "tick": x, "line": "<declutter %s>" % x, "op": {"op": "tick"}} for x in nodes]
+        body += [cluster.client_op(nodes[0], nodes, {"op": "remove", "k": "ek"}, c="ce", db="e"),
+                 cluster.client_op(nodes[0], nodes, {"op": "set", "k": "ek", "v": "two"}, c="ce", db="e"),
+                 cluster.client_op(nodes[0], nodes, {"op": "remove", "k": "k1"}),
+                 cluster.client_op(nodes[0], nodes, {"op": "set", "k": "k1", "v": "back"})]
+        cases.append(build_case("u%d" % i, nodes, body, seed + i, "fifo" if i % 2 else "random"))
     # two concurrent clients on the primary, deliveries interleaved with the commands
     for i in range(120 if tier == "quick" else 1500):
         nodes = rnd.choice([["n1", "n2"], ["n1", "n2", "n3"]])
